@@ -29,7 +29,8 @@ PROPS = {
                 "Non-trivial = more than one expression evaluated.",
         "exhaustive": False,
         "proved": ["C02_refines_hoistAll", "C02_refines_partial", "C02_counterexample", "C02_space_not_invented", "C02_space_kept",
-                   "C02_successor_skips_whitespace", "C02_pinned"],
+                   "C02_successor_skips_whitespace", "C02_pinned",
+                   "C02_transcription_pinned (T1: control structure and calls of 51 functions of generator.go)"],
         "monitored": ["every batch of generated code compiles", "rendered bytes / error / trace = Gen.run (model)", "= Denote.run (specification)"],
         "partial": ["Go type checking of generated code is observed, not proved", "expressions are oracle calls"],
         "trusted_base": ["Go compiler", "the oracle vocabulary harness/c02oracle and the harness's value tables"],
@@ -191,7 +192,8 @@ PROPS = {
                 "seq, once with/without fixed component over 2 shared handles, flush, join, function components ignoring / rendering children). "
                 "Distinct = distinct tree; non-trivial = contains a call with a block.",
         "exhaustive": False,
-        "proved": ["C13_main", "C13_noblock", "C13_sibling"],
+        "proved": ["C13_main", "C13_noblock", "C13_sibling",
+                   "C13_transcription_pinned (T1: control structure and calls of 9 functions of flush.go, generator.go, join.go, runtime.go)"],
         "monitored": ["model exec = real render of the same tree", "specification denote = real render"],
         "partial": [],
         "trusted_base": ["context.WithValue semantics; Go closures capture the enclosing template's children variable"],
@@ -253,7 +255,8 @@ PROPS = {
                 "whole, then 4000 (200000) mutations (truncation, token insertion, span deletion/duplication, byte flip, multi-insertion) and "
                 "random byte tails. Non-trivial = accepted file with more than two expressions, or any mutated input.",
         "exhaustive": False,
-        "proved": ["C06_positionAt", "C06_clamp", "C06_progress", "C06_walk_consistent"],
+        "proved": ["C06_positionAt", "C06_clamp", "C06_progress", "C06_walk_consistent",
+                   "C06_transcription_pinned (T1: control structure and calls of 11 functions of parse.go)"],
         "monitored": ["no panic / no slow parse / error position in bounds on every explored input", "rangeFaithful for every expression and name range of every accepted file",
                       "model positionAt = a-h/parse PositionAt"],
         "partial": ["parser totality is monitored, not proved", "the 'matched => advanced' hypothesis of C06_progress is not instrumented per node parser (timeouts stand in for it)"],
@@ -283,7 +286,8 @@ PROPS = {
                 "5 seeds + 250 (6000) generated templates, every expression and every top-level declaration of each, generator option sets "
                 "rotating; 200 (10000) random AddSymbolRange sequences on a 3x4 grid of starts (several symbols per line). Non-trivial = more than two live expressions / multi-line or multi-byte value.",
         "exhaustive": False,
-        "proved": ["C07_add", "C07_same_byte", "C07_no_clobber", "C07_symbols_found", "C07_symbols_back", "C07_symbols_sound"],
+        "proved": ["C07_add", "C07_same_byte", "C07_no_clobber", "C07_symbols_found", "C07_symbols_back", "C07_symbols_sound",
+                   "C07_transcription_pinned (T1: control structure and calls of 13 functions of rangewriter.go, sourcemap.go)"],
         "monitored": ["model = real SourceMap.Add tables", "model advance = real RangeWriter ranges", "exprMapped for every expression of every explored template",
                       "model = real AddSymbolRange lookups", "symbol range of every top-level declaration of every explored template encloses the generated declaration"],
         "partial": ["that every expression is added and every declaration's range is passed to AddSymbolRange rests on the explored templates (there is no byte-exact model of the generator's text)"],
@@ -315,7 +319,8 @@ PROPS = {
                 "Non-trivial = the file is accepted by parse + generate + gofmt.",
         "exhaustive": False,
         "proved": ["C08_same_class_same_program", "C08_same_class_same_rendering", "C08_norm_projection", "C08_fragment_class_kept",
-                   "C08_fragment_same_program"],
+                   "C08_fragment_same_program",
+                   "C08_transcription_pinned (T1: control structure and calls of 30 functions of types.go)"],
         "monitored": ["fmt(x) accepted", "generated code of x and fmt(x) identical modulo positions/gofmt", "layout class kept, template by template",
                       "same class => same real code (model correspondence)",
                       "fragment + parser-well-formed + spaced => the real formatter keeps the class"],
@@ -344,7 +349,8 @@ PROPS = {
         "rule": "all .templ files of the repository + 19 seed bodies (x LF/CRLF) + 2500 (40000) grammar-generated files, half of them restricted "
                 "to the printer fragment. Non-trivial = the file is accepted by parse + generate + gofmt (fmt) / at least one template of the file is in the fragment (prt).",
         "exhaustive": False,
-        "proved": ["C09_print_reparse", "C09_wf_reparse", "C09_stable"],
+        "proved": ["C09_print_reparse", "C09_wf_reparse", "C09_stable",
+                   "C09_transcription_pinned (T1: control structure and calls of 30 functions of types.go)"],
         "monitored": ["real fmt(fmt x) = fmt x on every accepted input", "Printer.body = real formatter output", "Reparse.body = real parser on formatted text",
                       "wfNodes on every parsed tree", "print(reparse t) = print t on every parsed tree of the fragment"],
         "partial": ["constructs outside the fragment: implementation-level check only"],
